@@ -8,7 +8,7 @@ CONSTANTS
   Literals = FALSE
   Fuel = 4
   BrkLimit = 12
-  RedUpTo = 6
+  RedUpTo = 4
 INIT Init
 NEXT Next
 ACTION_CONSTRAINT Emit
